@@ -334,7 +334,6 @@ impl Lock {
     /// `pass`: None = zero-filled memory, Some(p) = address-tagged background (all regions except
     /// the I/O register blocks, which stay zero).
     pub fn new(pass: Option<u32>) -> Lock {
-        *crate::setting::ENABLE_PRINT_OPCODE.write().unwrap() = false;
         let mut l = Lock {
             cpu: Cpu::new(),
             mem: Mem::new(),
